@@ -59,7 +59,10 @@ impl FloatCachePolicy {
         let size = NonZeroUsize::new(config.cache_size).ok_or_else(|| {
             CacheError::BuildError("maximum_cache_size must be greater than 0".to_string())
         })?;
-        let cache = Mutex::new(LruCache::new(size));
+        // the configured size bounds the cache; it is not an amount to allocate up front
+        let mut lru = LruCache::unbounded();
+        lru.resize(size);
+        let cache = Mutex::new(lru);
         for precision in config.key_precisions.iter() {
             if (*precision > 10) || (*precision < -10) {
                 return Err(CacheError::BuildError(
